@@ -44,6 +44,15 @@ DEFS = [
     ("tuple struct", "pub struct @<T>(pub T, pub Option<T>);", ["T"], {}),
     ("recursive", "pub struct @<T> { pub v: T, pub next: Option<Box<@<T>>> }", ["T"], {}),
     ("where clause", "pub struct @<T> where T: Clone { pub v: Vec<T> }", ["T"], {}),
+    # definitions stamped out by macro_rules!: a `$t:ty` fragment reaches the derive as a None-delimited group
+    ("macro ty fragment", "macro_rules! mk_@ { ($t:ty) => { #[derive(TS)] pub struct @<T> { pub items: $t, pub n: i32 } } } mk_@!(Vec<T>);", ["T"], {"raw": True}),
+    ("macro bare fragment", "macro_rules! mk_@ { ($t:ty) => { #[derive(TS)] pub struct @<T> { pub item: $t } } } mk_@!(T);", ["T"], {"raw": True}),
+    ("macro two fragments", "macro_rules! mk_@ { ($a:ty, $b:ty) => { #[derive(TS)] pub struct @<A, B> { pub a: $a, #[ts(inline)] pub b: $b } } } mk_@!(Option<A>, Gen<B>);", ["A", "B"], {"raw": True}),
+    ("macro enum fragment", "macro_rules! mk_@ { ($t:ty) => { #[derive(TS)] pub enum @<T> { A($t), B { x: Option<$t> }, C } } } mk_@!(Vec<T>);", ["T"], {"raw": True}),
+    ("type macro field", "macro_rules! ty_@ { ($t:ty) => { Vec<$t> } } #[derive(TS)] pub struct @<T> { pub items: ty_@!(T), pub n: i32 }", ["T"], {"raw": True}),
+    ("projection", "#[derive(TS)] pub struct @<T> { pub first: <Vec<T> as IntoIterator>::Item, pub n: i32 }", ["T"], {"raw": True}),
+    ("parenthesised", "#[derive(TS)] pub struct @<T> { pub a: (T), pub b: Option<(Vec<T>)> }", ["T"], {"raw": True}),
+    ("reference and slice", "#[derive(TS)] pub struct @<T: 'static> { pub a: &'static T, pub b: Box<[T]>, pub c: &'static [T] }", ["T"], {"raw": True}),
 ]
 ARGS = ["i32", "String", "Inner", "Vec<u64>", "Gen<Inner>", "Option<bool>"]
 
@@ -66,7 +75,7 @@ def build():
     # names of argument types and defaults
     for n, a in enumerate(ARGS + ["Vec<Inner>", "Vec<String>", "Vec<i32>", "Vec<Vec<u64>>", "Vec<Gen<Inner>>", "Vec<Option<bool>>"]):
         units.append(corpus.Unit("A%d" % n, "pub type A%d = %s;" % (n, a), [], serde=False, meta={"arg": a}))
-    prelude = "\n".join("#[derive(TS)] " + p[2] for p in plan)
+    prelude = "\n".join(("" if p[4].get("raw") else "#[derive(TS)] ") + p[2] for p in plan)
     return units, plan, prelude
 
 
